@@ -207,7 +207,9 @@ def diff_e(old, new):
                            env={"LC_ALL": "C", "PATH": "/usr/bin:/bin"})
         if r.returncode not in (0, 1) or r.stderr:
             raise ModelError("diff -e failed: rc=%d %r" % (r.returncode, r.stderr[:200]))
-        return r.stdout.decode("utf-8").splitlines(True)
+        out = r.stdout.decode("utf-8")
+        # lines end at "\n" only (str.splitlines would also break at FF, CR, NEL, U+2028 ...)
+        return [l + "\n" for l in out.split("\n")[:-1]] + ([out.split("\n")[-1]] if not out.endswith("\n") and out else [])
     finally:
         shutil.rmtree(d, ignore_errors=True)
 
